@@ -124,4 +124,45 @@ Proof. intros H. cbn. now rewrite H. Qed.
 Lemma sem_just_cfg n ts ctx p a : sem (S n) (JustCfg ts) ctx p a = sem (S n) (Just (val_toks ctx)) ctx p a.
 Proof. reflexivity. Qed.
 
+(* ---------- output elision (C04): eliding combinators equal their value-building formulation ---------- *)
+Lemma sem_ignore_then_is_then_snd n x y ctx p a :
+  sem (S n) (IgnoreThen x y) ctx p a = sem (S (S n)) (Map FSnd (Then x y)) ctx p a.
+Proof.
+  cbn. destruct (sem n x ctx p a) as [[[[[va p1] e1]|] a1]|]; auto.
+  destruct (sem n y ctx p1 a1) as [[[[[vb p2] e2]|] a2]|]; auto.
+Qed.
+
+Lemma sem_then_ignore_is_then_fst n x y ctx p a :
+  sem (S n) (ThenIgnore x y) ctx p a = sem (S (S n)) (Map FFst (Then x y)) ctx p a.
+Proof.
+  cbn. destruct (sem n x ctx p a) as [[[[[va p1] e1]|] a1]|]; auto.
+  destruct (sem n y ctx p1 a1) as [[[[[vb p2] e2]|] a2]|]; auto.
+Qed.
+
+Lemma sem_to_is_map_const n k x ctx p a :
+  sem (S n) (To k x) ctx p a = sem (S n) (Map (FConst k) x) ctx p a.
+Proof. cbn. destruct (sem n x ctx p a) as [[[[[va p1] e1]|] a1]|]; auto. Qed.
+
+Lemma sem_rep_unit_is_collect_unit n i ctx p a :
+  sem (S n) (RepUnit i) ctx p a = sem (S n) (Collect CUnit i) ctx p a.
+Proof.
+  cbn. destruct (sdrive toks spn (sem n) n i ctx (mk_iter i ctx) None [] [] p a) as [[[[[[its fl] p1] e1]|] a1]|]; auto.
+Qed.
+
+(* to_span / to_slice: the value is the extent, everything else is the sub-parser's *)
+Lemma sem_to_span n x ctx p a v p1 e1 a1 :
+  sem n x ctx p a = Some (Some (v, p1, e1), a1) ->
+  sem (S n) (ToSpan x) ctx p a = Some (Some (vspan (spn p p1), p1, e1), a1).
+Proof. intros H. cbn. now rewrite H. Qed.
+
+Lemma sem_to_slice n x ctx p a v p1 e1 a1 :
+  sem n x ctx p a = Some (Some (v, p1, e1), a1) ->
+  sem (S n) (ToSlice x) ctx p a = Some (Some (VSlice p p1, p1, e1), a1).
+Proof. intros H. cbn. now rewrite H. Qed.
+
+Lemma sem_map_with_span n x ctx p a v p1 e1 a1 :
+  sem n x ctx p a = Some (Some (v, p1, e1), a1) ->
+  sem (S n) (MapWith MWSpan x) ctx p a = Some (Some (VPair v (vspan (spn p p1)), p1, e1), a1).
+Proof. intros H. cbn. now rewrite H. Qed.
+
 End SemLaws.
